@@ -36,7 +36,7 @@ LEVEL = {
 }
 
 LEVEL.update({
-    "C01": ("Theorems (all source texts, both modes): outcome form of a rejected parse (1 error in stop mode; 1..cap+1 distinct messages in collecting mode; cap+1 = 11 on the regenerated table), termination of the parse and look-ahead loops (the fuel outcome is unreachable), every error line within 1..lines+1, stream envelope kinds, totality of compile on rectangular documents, and the linear bound calls <= workPerToken(T)*(lines+1) (= 20 per line, computed from the regenerated table) under kernel-checked queue facts. C01_no_crash: for every source text and both modes the parse outcome is never the explicit crash outcome that models AttributeError/IndexError/unknown state (abstract interpretation of the builder stack computed from the regenerated table and kernel-checked; invariant proved for accepted and rejected runs), hence the outcome is a document or a rejection (C01_parse_outcome_total). Per-call cost is outside the model: every document of the run is first parsed in a child process under a watchdog together with inputs built to make each regular expression backtrack.",
+    "C01": ("Theorems (all source texts, both modes): outcome form of a rejected parse (1 error in stop mode; 1..cap+1 distinct messages in collecting mode; cap+1 = 11 on the regenerated table), termination of the parse and look-ahead loops (the fuel outcome is unreachable), every error line within 1..lines+1, stream envelope kinds, totality of compile on rectangular documents, and the linear bound calls <= workPerToken(T)*(lines+1) (= 20 per line, computed from the regenerated table) under kernel-checked queue facts. C01_no_crash: for every source text and both modes the parse outcome is never the explicit crash outcome that models AttributeError/IndexError/unknown state (abstract interpretation of the builder stack computed from the regenerated table and kernel-checked; invariant proved for accepted and rejected runs), hence the outcome is a document or a rejection (C01_parse_outcome_total); parsed documents are rectangular, compile is total on them and the stream never yields anything but source/gherkinDocument/pickle/parseError envelopes (C01_pipeline_total). Per-call cost is outside the model: every document of the run is first parsed in a child process under a watchdog together with inputs built to make each regular expression backtrack.",
             "filesystem overload of TokenScanner is known finding F4; per-call cost and wall-clock are outside the model (watchdog)"),
     "C03": ("Node-level theorems (field rules of every node kind, description joining and trimming characterised uniquely, children kept in insertion = source order, crashes only when a needed token/field is missing) and the whole-document composition over token trees: the builder's stack machine computes exactly the structural recursion astOf of the tree (error paths included), and for grammar-shaped trees (shape derived from ValidTree of the regenerated grammar by a kernel-checked fact) the element locations of the AST in source order equal the element-carrying leaves of the tree in order: every element once, nothing else. Tie: complete ASTs (minus locations/ids) of generated and corpus documents vs the model.",
             "C03_parse_is_astOf links every accepted imperative parse to its token tree; C03_roundtrip (generated models) not proved"),
